@@ -21,6 +21,7 @@ open Sge Sge.Reward Driver
 
 structure St where
   fixed : Bool := false
+  codecFixed : Bool := false
   s : State := init false (fun _ => 0)
 
 def NACCT : Nat := 12
@@ -124,8 +125,9 @@ def stepLine (st : St) (line : String) : St × List String :=
   match words line with
   | [] => (st, [])
   | ["CFG", "fixed", v] => ({ st with fixed := pb v }, [])
-  | ["N", h] => ({ st with s := init st.fixed (fun _ => 0) }, [s!"n {h}"])
-  | ["INIT", bal] => ({ st with s := init st.fixed (fun a => if a < NACCT then parseInt bal else 0) }, [])
+  | ["CFG", "codec", v] => ({ st with codecFixed := pb v }, [])
+  | ["N", h] => ({ st with s := { init st.fixed (fun _ => 0) with codecFixed := st.codecFixed } }, [s!"n {h}"])
+  | ["INIT", bal] => ({ st with s := { init st.fixed (fun a => if a < NACCT then parseInt bal else 0) with codecFixed := st.codecFixed } }, [])
   | ws =>
     match parseOp ws with
     | none => (st, ["bad-op " ++ line])
